@@ -16,6 +16,10 @@ import (
 )
 
 const computeSrc = `
+--[[ every token kind of the lexer occurs in this source: two states load it at the same time
+     (long comment) ]] --[==[ level-2 ]] comment ]==]
+local long = [[long
+string]] .. [=[ ]] ]=] .. "esc\65\n\"q\"" .. 'single' .. 0x10 .. 1e2 .. .5
 local t, s = {}, ""
 for i = 1, 40 do t[i] = i * 2 s = s .. (i % 10) end
 local function mk(k) local n = k return function() n = n + 1 return n end end
@@ -31,7 +35,7 @@ local co = coroutine.wrap(function(a) local b = coroutine.yield(a + 1) return b 
 local hs = {function() return debug.traceback("tb") end, function() return tostring(debug.getinfo(1, "n").name) end, function() error("boom") end}
 local dbg = #hs[1]() .. hs[2]() .. select(2, pcall(hs[3])) .. select(2, xpcall(function() return hs[3]() end, debug.traceback)):sub(1, 20) .. debug.getinfo(1, "l").currentline
 local function tailer() return hs[2]() end
-return r .. table.concat(parts) .. t[1] .. co(1) .. co(4) .. select("#", pcall(error, "e")) .. math.floor(3.7) .. os.time{year=2000, month=1, day=1, hour=0} .. dbg .. tailer() .. -(1 + 2)
+return r .. table.concat(parts) .. t[1] .. co(1) .. co(4) .. select("#", pcall(error, "e")) .. math.floor(3.7) .. os.time{year=2000, month=1, day=1, hour=0} .. dbg .. tailer() .. -(1 + 2) .. #long .. long:sub(-9)
 `
 
 const poolSrc = `
